@@ -277,7 +277,7 @@ class Engine:
         if hk not in self._init_heap:
             self._init_keys[hk] = key
             self._pending_closure.append(key)
-            self._init_heap[hk] = z3.Const('H0_' + '_'.join(str(x) for x in hk), self.heap_sort(key))
+            self._init_heap[hk] = z3.Const(('H0_' + '_'.join(str(x) for x in hk)).replace('|', '.'), self.heap_sort(key))
         return self._init_heap[hk]
 
     def closure(self, key, arr, alloc, lenarr):
@@ -293,7 +293,16 @@ class Engine:
             if not ft.reflike:
                 return None
             v = z3.Select(arr, r)
-            return z3.ForAll([r], z3.Implies(z3.And(r > 0, r <= alloc), z3.And(v >= 0, v <= alloc)), patterns=[v])
+            typing = []
+            # heap typing of the field: a non-None value is an instance of the declared class / a builtin container (class id 0)
+            if isinstance(ft, T.Ref) and ft.cls != '$any' and ft.cls in self.prop.classes and not getattr(self.prop.classes[ft.cls], 'universal', False):
+                typing = [z3.Implies(v != 0, self.instance_of(v, ft.cls))]
+            elif isinstance(ft, (T.List, T.Dict)):
+                typing = [z3.Implies(v != 0, self.cls_of(v) == 0)]
+            if not ft.nullable and not isinstance(ft, T.Ref):
+                # a builtin-container field declared non-optional holds a container
+                typing.append(v > 0)
+            return z3.ForAll([r], z3.Implies(z3.And(r > 0, r <= alloc), z3.And(v >= 0, v <= alloc, *typing)), patterns=[v])
         if k0 == 'elem' and key[2].reflike:
             k = z3.Int(fresh_name('k'))
             v = z3.Select(z3.Select(arr, r), k)
@@ -434,6 +443,19 @@ class Engine:
             d = self.prop.classes[x]
             if d.elem is not None:
                 return self.ptype(d.elem)
+            cur += d.bases
+        return None
+
+    def class_dictof(self, name):
+        cur, seen = [name], set()
+        while cur:
+            x = cur.pop(0)
+            if x in seen or x not in self.prop.classes:
+                continue
+            seen.add(x)
+            d = self.prop.classes[x]
+            if getattr(d, 'dictof', None) is not None:
+                return T.Dict(self.ptype(d.dictof[0]), self.ptype(d.dictof[1]))
             cur += d.bases
         return None
 
